@@ -85,8 +85,8 @@ func init() {
 		Rule:      "one evaluation = one crash image: a seeded protocol-heavy workload (publish at small rollover, deletes that keep/rebase/empty/remove segments, tail deletes, reopen with migrate/recover) is recorded at the file-system seam; every mutation of the trace (quick: up to 70 per run, biased to deletes/reopens) is a crash point, appends are additionally torn at several byte counts, and the recovery of an image is itself cut again (depth 2); each image is opened with Recover and must show an allowed state, agreeing views, unchanged NextOffset, idempotent recovery, and be appendable and pass Check; distinct_nontrivial counts distinct (operation kind, file-system step, sub-operation, torn, completed) classes of crash points evaluated",
 		Assume:    kAssume,
 		Technique: "deterministic simulation with fault injection: crash and torn-write images enumerated from the recorded FS trace, depth-2 crashes inside recovery"})
-	register(&PropDef{ID: "C06", Engine: "K", Profile: "protocol", Gen: genPlanK, RunPlan: runPlanK, Level: "fault_enumeration", QuickS: 60, ThorS: 900,
-		Rule:      "one evaluation = one power-loss image: at every crash point of a recorded workload (with Sync calls, AutoSync in half of the runs, Close) each file is cut back to a length between its last fsynced length and its current length (all-synced, all-full and seeded mixes incl. cuts inside records); after Open(Recover) every message below the acknowledged watermark must be present, the recovered list must be a prefix of the crash-time list and NextOffset >= watermark; distinct_nontrivial counts distinct crash-point classes at which an image actually lost un-synced bytes",
+	register(&PropDef{ID: "C06", Engine: "K", Profile: "protocol", Gen: genPlanC06, RunPlan: runPlanK, Level: "fault_enumeration", QuickS: 60, ThorS: 900,
+		Rule:      "one evaluation = one power-loss image: at every crash point of a recorded workload (with Sync calls, AutoSync in half of the runs, Close) each file is cut back to a length between its last fsynced length and its current length (all-synced, all-full and seeded mixes incl. cuts inside records); after Open(Recover) every message below the acknowledged watermark must be present, the recovered list must be a prefix of the crash-time list and NextOffset >= watermark; a quarter of the runs are concurrent (1-3 publisher tasks and 1-2 Sync callers under the serialized scheduler, FS tap on): there the watermark at a file-system step is the largest offset a Sync (or AutoSync Publish) had returned before the next step; distinct_nontrivial counts distinct crash-point classes at which an image actually lost un-synced bytes",
 		Assume:    kAssume,
 		Technique: "deterministic simulation with fault injection: power-loss images (per-file tail loss down to the fsynced length) enumerated from the recorded FS trace"})
 	dAssume := append([]string{"validity of a record is decided by the independent reference codec (CRC-32C, trailer, length sanity); single-byte damage is always detected by CRC-32C"}, commonAssume...)
